@@ -449,12 +449,21 @@ def finish(ctx):
 
 
 def describe_exception(exc, repo=None):
-    """(type name, innermost frame inside the repository under test, message) for bucketing."""
+    """(type name, innermost frame inside the repository under test, message) for bucketing.
+
+    Walking from the innermost frame outwards, the first frame that belongs either to the repository under test or to
+    the verification code decides who raised: an exception that originates in /verif (a monitor or the harness tripping
+    over e.g. a renamed private attribute) is a harness error ('outside-repo' -> inconclusive), never a violation."""
     repo = repo or repo_path()
     tb = traceback.extract_tb(exc.__traceback__)
-    inner = None
-    for fr in tb:
-        if fr.filename.startswith(repo + os.sep) and (os.sep + "tests" + os.sep) not in fr.filename:
-            inner = fr
-    where = "%s:%s" % (os.path.relpath(inner.filename, repo), inner.name) if inner is not None else "outside-repo"
-    return type(exc).__name__, where, str(exc)[:200]
+    for fr in reversed(tb):
+        if not os.path.isabs(fr.filename):
+            continue  # compiled extension frames carry relative pseudo paths (numpy/random/_generator.pyx)
+        fn = os.path.abspath(fr.filename)
+        if fn.startswith(DEPS_DIR + os.sep):
+            continue  # contract-library wrappers sit between repository frames
+        if fn.startswith(VERIF_DIR + os.sep):
+            return type(exc).__name__, "outside-repo", str(exc)[:200]
+        if fn.startswith(repo + os.sep) and (os.sep + "tests" + os.sep) not in fn:
+            return type(exc).__name__, "%s:%s" % (os.path.relpath(fn, repo), fr.name), str(exc)[:200]
+    return type(exc).__name__, "outside-repo", str(exc)[:200]
